@@ -54,14 +54,15 @@ VARIABLES
   floor,    \* ghost, set at a fault/Close: number of acknowledged mutations that must survive
   inflight, \* ghost, set at a fault: the write set of the call that was in flight (or <<>>)
   recok,    \* ghost: every recovery so far exposed an admissible mapping
+  bk,       \* the last backup: [has, dir, view] (db.go Backup: every file's logical content, no lock, no merge directory)
   nextMid,  \* next mutation id (tags the records a call writes; ghost field mid of records)
   nextBid, nops, nfaults, nmerges, nrestarts
 
 disk  == <<dir, dhint, mdir, durable>>
-ghost == <<acked, floor, inflight, recok>>
+ghost == <<acked, floor, inflight, recok, bk>>
 ctrs  == <<nextMid, nextBid, nops, nfaults, nmerges, nrestarts>>
 vars  == <<dir, dhint, mdir, durable, lock, st, active, index, total, reclaim, batch, merge, adopt,
-           pc, cur, acked, floor, inflight, recok, nextMid, nextBid, nops, nfaults, nmerges, nrestarts>>
+           pc, cur, acked, floor, inflight, recok, bk, nextMid, nextBid, nops, nfaults, nmerges, nrestarts>>
 
 (* ---- records and files -------------------------------------------------- *)
 PUT == 0  DEL == 1  FIN == 2  TORN == 9
@@ -135,7 +136,7 @@ Init ==
   /\ lock = TRUE /\ st = "open" /\ active = 0
   /\ index = [k \in Keys |-> NoPos] /\ total = 0 /\ reclaim = 0
   /\ batch = NoBatch /\ merge = NoMerge /\ adopt = NoAdopt /\ pc = <<>> /\ cur = Idle
-  /\ acked = <<>> /\ floor = 0 /\ inflight = <<>> /\ recok = TRUE
+  /\ acked = <<>> /\ floor = 0 /\ inflight = <<>> /\ recok = TRUE /\ bk = [has |-> FALSE]
   /\ nextMid = 1 /\ nextBid = 1 /\ nops = 0 /\ nfaults = 0 /\ nmerges = 0 /\ nrestarts = 0
 
 (* ---- Put / Delete / Sync ---------------------------------------------------- *)
@@ -223,7 +224,7 @@ Ack ==
             /\ acked' = Append(acked, [w |-> cur.w, mid |-> cur.mid])
             /\ batch' = NoBatch
   /\ cur' = Idle
-  /\ UNCHANGED <<disk, lock, st, active, merge, adopt, pc, floor, inflight, recok, ctrs>>
+  /\ UNCHANGED <<disk, lock, st, active, merge, adopt, pc, floor, inflight, recok, bk, ctrs>>
 
 (* ---- batches ---------------------------------------------------------------------- *)
 NewBatch(sy) ==
@@ -362,7 +363,7 @@ CloseCall ==
   /\ nrestarts' = nrestarts + 1
   /\ durable' = [f \in Fids |-> Len(dir[f])]      \* Close flushes every file
   /\ st' = "down" /\ lock' = FALSE /\ floor' = Len(acked) /\ inflight' = <<>>
-  /\ UNCHANGED <<dir, dhint, mdir, active, index, total, reclaim, batch, merge, adopt, pc, cur, acked, recok,
+  /\ UNCHANGED <<dir, dhint, mdir, active, index, total, reclaim, batch, merge, adopt, pc, cur, acked, recok, bk,
                  nextMid, nextBid, nops, nfaults, nmerges>>
 
 InFlightW == IF cur # Idle /\ cur.op \in {"put", "del", "commit"} THEN cur.w ELSE <<>>
@@ -374,7 +375,7 @@ Crash ==
   /\ Feat("crash") /\ st \in {"open", "adopt"} /\ nfaults < MaxFaults
   /\ Volatile
   /\ (IF st = "open" THEN floor' = Len(acked) /\ inflight' = InFlightW ELSE UNCHANGED <<floor, inflight>>)
-  /\ UNCHANGED <<disk, active, index, total, reclaim, acked, recok, nextMid, nextBid, nops, nmerges, nrestarts>>
+  /\ UNCHANGED <<disk, active, index, total, reclaim, acked, recok, bk, nextMid, nextBid, nops, nmerges, nrestarts>>
 
 \* an acknowledged mutation must survive a power failure iff all its records are below the durable mark
 DurableMut(m) == \A f \in Fids : \A i \in 1..Len(dir[f]) : dir[f][i].mid = m => i <= durable[f]
@@ -392,7 +393,7 @@ PowerLoss ==
                                  THEN Append(SubSeq(dir[f], 1, cut[f]), [dir[f][cut[f] + 1] EXCEPT !.t = TORN])
                                  ELSE SubSeq(dir[f], 1, cut[f])]
   /\ durable' = [f \in Fids |-> IF durable[f] < Len(dir'[f]) THEN durable[f] ELSE Len(dir'[f])]
-  /\ UNCHANGED <<dhint, mdir, active, index, total, reclaim, acked, recok, nextMid, nextBid, nops, nmerges, nrestarts>>
+  /\ UNCHANGED <<dhint, mdir, active, index, total, reclaim, acked, recok, bk, nextMid, nextBid, nops, nmerges, nrestarts>>
 
 \* Open, phase 1: take the lock; decide whether a finished merge must be adopted
 OpenLock ==
@@ -493,7 +494,14 @@ OpenLoad ==
              /\ (IF s.alien # 0 THEN recok' = FALSE /\ acked' = acked ELSE Rebase(view))
              /\ floor' = 0 /\ inflight' = <<>>
   /\ adopt' = NoAdopt
-  /\ UNCHANGED <<dhint, mdir, batch, merge, pc, cur, ctrs>>
+  /\ UNCHANGED <<dhint, mdir, batch, merge, pc, cur, bk, ctrs>>
+
+\* Backup (db.go): under the exclusive lock, a copy of every data file's logical content and of the hint file;
+\* neither the lock file nor the merge directory is part of it
+Backup ==
+  /\ Feat("backup") /\ Quiescent
+  /\ bk' = [has |-> TRUE, dir |-> dir, hint |-> dhint, view |-> View]
+  /\ UNCHANGED <<disk, lock, st, active, index, total, reclaim, batch, merge, adopt, pc, cur, acked, floor, inflight, recok, ctrs>>
 
 \* a failed Open can be retried
 Retry == /\ st = "failed" /\ st' = "down"
@@ -507,7 +515,7 @@ Next ==
   \/ \E k \in Keys, v \in Vals \cup {Nil} : BStage(k, v)
   \/ BCommit
   \/ MergeBegin \/ MergeRm \/ MergeMk \/ MergeScan \/ MergeMark
-  \/ CloseCall \/ Crash \/ PowerLoss \/ OpenLock \/ AdoptStep \/ OpenLoad \/ Retry
+  \/ CloseCall \/ Crash \/ PowerLoss \/ OpenLock \/ AdoptStep \/ OpenLoad \/ Retry \/ Backup
 
 Spec == Init /\ [][Next]_vars
 
@@ -523,6 +531,17 @@ MapSemantics == Quiescent => View = Model
 \* (so a clean restart, a process crash and a backup all preserve the mapping)
 QuiescentLiveEqualsRecovered ==
     Quiescent /\ ~HasTorn => LET s == FullRecover IN ViewOf(s.idx) = Model /\ s.alien = 0
+
+\* C20: opening the last backup as an independent database (a plain scan of its files: there is no merge
+\* directory next to it) yields the mapping the source had when Backup was called, whatever happened since
+BackupOpensToSnapshot ==
+    bk.has => LET fs == AscSeq(DOMAIN bk.dir)
+                  recs(f) == [i \in 1..Len(bk.dir[f]) |-> [f |-> f, b |-> 0, o |-> i, s |-> bk.dir[f][i].s, t |-> bk.dir[f][i].t,
+                                                          k |-> bk.dir[f][i].k, v |-> bk.dir[f][i].v, bt |-> bk.dir[f][i].bt]]
+                  RECURSIVE Cat(_)
+                  Cat(i) == IF i > Len(fs) THEN <<>> ELSE recs(fs[i]) \o Cat(i + 1)
+                  s == RecFold(RecInit(Keys), Cat(1), 1)
+              IN ViewOf(s.idx) = bk.view /\ s.alien = 0
 
 \* C02/C03/C04/C06/C07: every recovery exposed an admissible mapping (see Rebase), and Open never fails
 RecoveredOK == recok
